@@ -1,1 +1,139 @@
-/-! # C09 — property theorems (to be filled in) -/
+import JokerVerif.Lemmas.PriorLemmas
+/-!
+# C09 — prior draws and reported ln_prior follow the declared densities
+
+Property theorems only, over `ℝ` (the model of `Model/Prior.lean` instantiated with `Prior.realFn`).
+All statements are for every admissible parameter value (`0 < a < b`, `σ_K0 ≥ 0`, `0 < P, P0`, `e² < 1`, …) and
+every evaluation point.
+-/
+namespace Prior
+open Real MeasureTheory
+
+/-- the sampler inverts the CDF `F(x) = (ln x − ln a)/(ln b − ln a)`: `F(draw(u)) = u` for every `u` -/
+theorem logUniform_cdf_inverse (a b u : ℝ) (ha : 0 < a) (hab : a < b) :
+    logUniformCdf realFn a b (logUniformDraw realFn a b u) = u := by
+  have h : Real.log b - Real.log a ≠ 0 := (log_sub_pos ha hab).ne'
+  simp only [logUniformCdf, logUniformDraw, realFn_log, realFn_exp, Real.log_exp]
+  field_simp; ring
+
+/-- draws stay inside the support `[a, b]` for every uniform `u ∈ [0, 1]` -/
+theorem logUniform_draw_support (a b u : ℝ) (ha : 0 < a) (hab : a < b) (hu0 : 0 ≤ u) (hu1 : u ≤ 1) :
+    a ≤ logUniformDraw realFn a b u ∧ logUniformDraw realFn a b u ≤ b := by
+  have hL := log_sub_pos ha hab
+  have hb : 0 < b := lt_trans ha hab
+  simp only [logUniformDraw, realFn_log, realFn_exp]
+  constructor
+  · calc a = Real.exp (Real.log a) := (Real.exp_log ha).symm
+      _ ≤ _ := Real.exp_le_exp.mpr (by nlinarith)
+  · calc _ ≤ Real.exp (Real.log b) := Real.exp_le_exp.mpr (by nlinarith)
+      _ = b := Real.exp_log hb
+
+/-- inside the support the declared log-density exists and is the log of the derivative of that CDF -/
+theorem logUniform_density (a b x : ℝ) (ha : 0 < a) (hab : a < b) (hax : a ≤ x) (hxb : x ≤ b) :
+    ∃ lp, logUniformLogp realFn a b x = some lp ∧
+      HasDerivAt (logUniformCdf realFn a b) (Real.exp lp) x := by
+  refine ⟨-Real.log x - Real.log (Real.log b - Real.log a), ?_, ?_⟩
+  · simp [logUniformLogp, hax, hxb]
+  · exact hasDerivAt_logUniformCdf a b x ha hab (lt_of_lt_of_le ha hax)
+
+/-- outside `[a, b]` the log-density is `-∞` -/
+theorem logUniform_logp_outside (a b x : ℝ) (h : x < a ∨ b < x) : logUniformLogp realFn a b x = none := by
+  unfold logUniformLogp
+  rw [if_neg]
+  rintro ⟨h1, h2⟩
+  rcases h with h | h <;> linarith
+
+/-- the density is normalised: `∫_a^b exp(logp) = 1` -/
+theorem logUniform_normalised (a b : ℝ) (ha : 0 < a) (hab : a < b) :
+    ∫ x in a..b, Real.exp (-Real.log x - Real.log (Real.log b - Real.log a)) = 1 := by
+  have hL := log_sub_pos ha hab
+  have hpos : ∀ x ∈ Set.uIcc a b, 0 < x := by
+    intro x hx
+    rw [Set.uIcc_of_le hab.le] at hx
+    exact lt_of_lt_of_le ha hx.1
+  have hderiv : ∀ x ∈ Set.uIcc a b, HasDerivAt (fun x => (Real.log x - Real.log a) / (Real.log b - Real.log a))
+      (Real.exp (-Real.log x - Real.log (Real.log b - Real.log a))) x :=
+    fun x hx => hasDerivAt_logUniformCdf a b x ha hab (hpos x hx)
+  have hcont : ContinuousOn (fun x => Real.exp (-Real.log x - Real.log (Real.log b - Real.log a))) (Set.uIcc a b) := by
+    apply Real.continuous_exp.comp_continuousOn
+    apply ContinuousOn.sub
+    · exact (Real.continuousOn_log.mono (fun x hx => (hpos x hx).ne')).neg
+    · exact continuousOn_const
+  rw [intervalIntegral.integral_eq_sub_of_hasDerivAt hderiv hcont.intervalIntegrable]
+  rw [sub_self, zero_div, sub_zero, div_self hL.ne']
+
+/-- the value in the support is exactly `-ln x - ln ln(b/a)` -/
+theorem logUniform_logp_value (a b x : ℝ) (ha : 0 < a) (hab : a < b) (hax : a ≤ x) (hxb : x ≤ b) :
+    logUniformLogp realFn a b x = some (-Real.log x - Real.log (Real.log (b / a))) := by
+  have hb : 0 < b := lt_trans ha hab
+  simp [logUniformLogp, hax, hxb, Real.log_div hb.ne' ha.ne']
+
+/-- FixedCompanionMass: the scale is `σ_K0 (P/P0)^(-1/3) / √(1−e²)`, capped at `max_K` (and never negative) -/
+theorem sigmaK_formula (s0 P0 maxK P e : ℝ) (hs : 0 ≤ s0) (hP : 0 < P) (hP0 : 0 < P0) :
+    sigmaK realFn s0 P0 maxK P e = min (s0 * (P / P0) ^ (-(1 / 3) : ℝ) / Real.sqrt (1 - e * e)) maxK := by
+  have h0 := sigmaKRaw_nonneg s0 P0 P e hs hP hP0
+  unfold sigmaK clip
+  rw [minOf_eq_min, maxOf_eq_max, max_eq_left h0]
+  rfl
+
+/-- the variance the likelihood kernel uses for `K` is the square of the declared (clipped) scale -/
+theorem lambdaK_eq_clip_sq (s0 P0 maxK P e : ℝ) (hs : 0 ≤ s0) (hm : 0 ≤ maxK) (hP : 0 < P) (hP0 : 0 < P0)
+    (he : e * e < 1) :
+    (sigmaK realFn s0 P0 maxK P e) ^ 2 = lambdaK realFn s0 P0 maxK P e := by
+  have h0 := sigmaKRaw_nonneg s0 P0 P e hs hP hP0
+  unfold sigmaK clip lambdaK
+  rw [minOf_eq_min, minOf_eq_min, maxOf_eq_max, max_eq_left h0, min_sq_of_nonneg h0 hm,
+    sigmaKRaw_sq s0 P0 P e hP hP0 he, min_comm]
+  simp only [realFn_pow]
+  congr 1
+  ring
+
+/-- `K | P, e` has a normalised density: `exp(kLogp)` integrates to one over `K` -/
+theorem fcm_density_normalised (mu s0 P0 maxK P e : ℝ) (hσ : 0 < sigmaK realFn s0 P0 maxK P e) :
+    ∫ K, Real.exp (kLogp realFn (.fcm mu s0 P0 maxK) P e K) = 1 := by
+  simp only [kLogp]
+  simp_rw [exp_normalLogp mu _ _ hσ]
+  apply ProbabilityTheory.integral_gaussianPDFReal_eq_one
+  intro h
+  have : (0 : ℝ) < sigmaK realFn s0 P0 maxK P e ^ 2 := by positivity
+  have h2 := congrArg (fun v : NNReal => (v : ℝ)) h
+  simp only [Real.coe_toNNReal _ (sq_nonneg _), NNReal.coe_zero] at h2
+  linarith
+
+/-- the three `(α, β)` pairs are the published values of Kipping (2013), Table 1 -/
+theorem kipping_constants :
+    kipping .long = (1120, 3090) ∧ kipping .short = (697, 3270) ∧ kipping .global = (867, 3030) := by decide
+
+/-- `ln_prior` (nonlinear parameters only) is the log of the joint density of `(P, e, ω, M0[, s])` up to the
+row-independent constant `2·ln p(angle) = −2 ln 2π`; outside the support both are `-∞` -/
+theorem lnPrior_is_joint_up_to_const (c : Cfg ℝ) (r : Row ℝ) :
+    jointNonlinear realFn c r = (lnPriorNonlinear realFn c r).map (· + (-(2 * Real.log (2 * Real.pi)))) := by
+  unfold jointNonlinear angleLogp
+  simp only [realFn_log, realFn_pi]
+  congr 1; funext x; ring
+
+/-- with `generate_linear=True`: `ln_prior = ln p(P) + ln p(e) [+ ln p(s)] + ln p(K | P, e) + Σ ln p(v_l) +
+Σ ln p(dv0_i)`, which is the joint log-density up to the same constant -/
+theorem lnPriorFull_is_joint_up_to_const (c : Cfg ℝ) (r : Row ℝ) :
+    jointFull realFn c r = (lnPriorFull realFn c r).map (· + (-(2 * Real.log (2 * Real.pi)))) := by
+  unfold jointFull lnPriorFull angleLogp
+  simp only [realFn_log, realFn_pi, Option.map_map]
+  congr 1; funext x; simp only [Function.comp]; ring
+
+/-- the `K` term of a row is conditional on *that row's* period and eccentricity -/
+theorem lnPriorFull_K_term (c : Cfg ℝ) (r : Row ℝ) (mu s0 P0 maxK : ℝ) (hk : c.kPrior = .fcm mu s0 P0 maxK) (x : ℝ)
+    (h : lnPriorNonlinear realFn c r = some x) :
+    lnPriorFull realFn c r = some (x + (normalLogp realFn mu (sigmaK realFn s0 P0 maxK r.P r.e) r.K
+      + normalsLogp realFn c.vPrior r.v + normalsLogp realFn c.dvPrior r.dv)) := by
+  simp [lnPriorFull, h, lnPriorLinear, kLogp, hk]
+
+/-! ### non-vacuity -/
+example : logUniformLogp realFn 2 100 10 = some (-Real.log 10 - Real.log (Real.log 100 - Real.log 2)) := by
+  simp [logUniformLogp]; norm_num
+example : logUniformLogp realFn 2 100 150 = none := logUniform_logp_outside 2 100 150 (Or.inr (by norm_num))
+example : sigmaK realFn 30 365 500 365 0 = 30 := by
+  rw [sigmaK_formula 30 365 500 365 0 (by norm_num) (by norm_num) (by norm_num)]
+  norm_num
+example : (0 : ℝ) < 2 ∧ (2 : ℝ) < 100 := by norm_num
+
+end Prior
